@@ -18,6 +18,7 @@ c_Datas == {<<7>>}
 IsoConstraint == /\ MCConstraint
                  /\ ss[1].user \in {"", "ua"} /\ ss[2].user \in {"", "ub"}
                  /\ ss[1].h.x # "ub" /\ ss[2].h.x # "ua"
+                 /\ ss[1].h2.x # "ub" /\ ss[2].h2.x # "ua"
                  /\ Cardinality(NodesT(tree)) <= 7
 Sub(t, b) == [d |-> {p \in t.d : IsPrefix(b, p)}, f |-> Restrict(t.f, {p \in DOMAIN t.f : IsPrefix(b, p)})]
 Owner(s) == IF s = 1 THEN "ua" ELSE "ub"
